@@ -233,8 +233,174 @@ def screen_parallel(ctx, stats, nontriv, n, budget):
     return sorted(bad)
 
 
+def probe_shared_ingredients(seed, n):
+    """Directed family: two *unrelated* machine classes built from shared ingredients that are not machines — one plain
+    function object used as an inline callable by one class and as a method of a provider (listener / model / the
+    machine class itself) of the other; one Enum handed to `States.from_enum` by both; one function used as a guard
+    by a base class and overridden as a method in its subclass. Each machine, run after the other one has been defined
+    / instantiated / run (in either order), leaves exactly the trace it leaves alone."""
+    import random
+    import warnings
+    from enum import Enum
+    from statemachine import State, StateMachine
+    from statemachine.states import States
+    fails, cases = [], 0
+
+    class Status(Enum):
+        draft = 1
+        review = 2
+        published = 3
+
+    def trace_of(thunk):
+        try:
+            return thunk()
+        except Exception as e:      # noqa: BLE001
+            return f"{type(e).__name__}: {e}"
+
+    for i in range(n):
+        rng = random.Random(f"{seed}:shared:{i}")
+        kind = ("function", "enum", "override")[i % 3]
+        first = rng.choice(["A", "B"])
+        cases += 1
+        with warnings.catch_warnings():
+            warnings.simplefilter("ignore")
+            if kind == "function":
+                role = rng.choice(["listener", "model", "machine"])
+                grp = rng.choice(["before", "on", "after"])
+                def world():
+                    """one function object, the two classes that use it, and their runners"""
+                    log = []
+
+                    def stamp(owner=None, source=None, target=None):
+                        log.append((type(owner).__name__, getattr(source, "id", None), getattr(target, "id", None)))
+                        return "stamped"
+
+                    def mk_a():
+                        class Ticket(StateMachine):
+                            new = State(initial=True)
+                            closed = State(final=True)
+                            close = new.to(closed, **{grp: stamp})
+                        return Ticket
+
+                    def mk_b():
+                        conv = f"{grp}_transition"
+                        Holder = type("Journal", (), {conv: stamp, "state": None})
+                        ns = dict(shut=State(initial=True), opened=State(final=True))
+                        ns["open"] = ns["shut"].to(ns["opened"])
+                        if role == "machine":
+                            ns[conv] = stamp
+                        Door = type("Door", (StateMachine,), ns)
+                        return Door, Holder
+
+                    def run_a(T):
+                        log.clear()
+                        T().close()
+                        return list(log)
+
+                    def run_b(DB):
+                        D, H = DB
+                        log.clear()
+                        sm = D(listeners=[H()]) if role == "listener" else D(H()) if role == "model" else D()
+                        sm.open()
+                        return list(log)
+                    return mk_a, mk_b, run_a, run_b
+                mk_a, mk_b, run_a, run_b = world()
+                alone_a = trace_of(lambda: run_a(mk_a()))
+                mk_a, mk_b, run_a, run_b = world()
+                alone_b = trace_of(lambda: run_b(mk_b()))
+                mk_a, mk_b, run_a, run_b = world()
+                A, B = mk_a(), mk_b()
+                if first == "A":
+                    ta = trace_of(lambda: run_a(A))
+                    tb = trace_of(lambda: run_b(B))
+                else:
+                    tb = trace_of(lambda: run_b(B))
+                    ta = trace_of(lambda: run_a(A))
+                what = f"one function as inline `{grp}` of Ticket and as `{grp}_transition` of Door's {role}, {first} first"
+            elif kind == "enum":
+                use_inst = rng.random() < 0.5
+
+                def mk_a():
+                    class Editorial(StateMachine):
+                        st = States.from_enum(Status, initial=Status.draft, final=Status.published,
+                                              use_enum_instance=use_inst)
+                        submit = st.draft.to(st.review)
+                        approve = st.review.to(st.published)
+                    return Editorial
+
+                def mk_b():
+                    class Express(StateMachine):
+                        st = States.from_enum(Status, initial=Status.draft, final=Status.published,
+                                              use_enum_instance=use_inst)
+                        fast_track = st.draft.to(st.published)
+                        park = st.draft.to(st.review)
+                        unpark = st.review.to(st.draft) | st.review.to(st.published, cond="never")
+                        never = False
+                    return Express
+
+                def run_cls(M, evs):
+                    sm = M()
+                    out = []
+                    for e in evs:
+                        try:
+                            sm.send(e)
+                            out.append(sm.current_state.id)
+                        except Exception as ex:     # noqa: BLE001
+                            out.append(type(ex).__name__)
+                    return out + [sorted(e.id for e in sm.allowed_events) if not sm.current_state.final else []]
+                ea = ["fast_track", "park", "submit", "unpark", "approve"]
+                eb = ["submit", "park", "approve", "unpark", "fast_track"]
+                alone_a = trace_of(lambda: run_cls(mk_a(), ea))
+                alone_b = trace_of(lambda: run_cls(mk_b(), eb))
+                if first == "A":
+                    A = mk_a()
+                    B = mk_b()
+                else:
+                    B = mk_b()
+                    A = mk_a()
+                ta = trace_of(lambda: run_cls(A, ea))
+                tb = trace_of(lambda: run_cls(B, eb))
+                what = f"two classes over one Enum (use_enum_instance={use_inst}), {first} defined first"
+            else:
+                def allowed(self):
+                    return True
+
+                def mk_a():
+                    class Base(StateMachine):
+                        a = State(initial=True)
+                        b = State(final=True)
+                        go = a.to(b, cond=allowed)
+                    return Base
+
+                def run_base(Bs):
+                    sm = Bs()
+                    try:
+                        sm.go()
+                        return sm.current_state.id
+                    except Exception as ex:     # noqa: BLE001
+                        return type(ex).__name__
+                alone_a = trace_of(lambda: run_base(mk_a()))
+                A = mk_a()
+
+                class Sub(A):
+                    def allowed(self):      # a method of the same name: the inline guard of the base is the *function*
+                        return False
+                alone_b = tb = None
+                if first == "B":
+                    trace_of(lambda: run_base(Sub))
+                ta = trace_of(lambda: run_base(A))
+                what = f"a guard function of the base class, a method of that name in a subclass ({'subclass used first' if first == 'B' else 'base used first'})"
+        if ta != alone_a or tb != alone_b:
+            fails.append(f"{what}: alone {alone_a} / {alone_b}; next to the other one {ta} / {tb}")
+    return cases, fails
+
+
 def run(ctx):
     lean_obligations(ctx)
+    ncases, sf = probe_shared_ingredients(ctx.seed, 60 if ctx.tier == "quick" else 1200)
+    ctx.coverage["shared_ingredients_cases"] = ncases
+    if sf:
+        ctx.violation(ctx.write_replay("shared_ingredients.txt", "\n".join(sf[:10]) + "\n"), sf[0][:200])
     ctx.coverage["rule"] = RULE
     ctx.assumptions += [
         "worlds never contain a subclass that declares a transition whose source is an inherited state "
